@@ -46,8 +46,11 @@ Classify(s) ==
   IF s = <<"0">> THEN "accept"
   ELSE IF ~D.wf THEN "reject"
   ELSE IF D.sign = "none" /\ D.d1 # <<>> /\ (D.dot => D.d2 # <<>>) /\ D.unit # "none" THEN "accept"
-  ELSE LET zero == AllZero(D.d1) /\ AllZero(D.d2) IN
-       IF (zero \/ D.sign # "-") /\ (D.unit # "none" \/ zero) THEN "dontcare" ELSE "reject"
+  \* "accepts exactly ... and rejects everything else": the language is crisp.  A sign, a missing
+  \* integer or fraction part around the dot ("5.px", ".5px"), a zero other than the bare "0"
+  \* without unit - all of it is "everything else".  (Earlier these near-misses were left
+  \* unsettled; a seeded change that began to accept "5.px" went unnoticed because of that.)
+  ELSE "reject"
 
 DigitVal(x) == (CHOOSE k \in 1..10 : Digits10[k] = x) - 1
 RECURSIVE DigitsNat(_)
